@@ -62,12 +62,8 @@ def rule_label_every_exit(chk, rid):
         if not cfg.is_reachable(r):
             continue
         # classify exit
-        lits = dominating_literals(cfg, r)
-        if any(txt == "self.query is None" and pol is False for _, txt, pol, _ in lits):
-            continue   # delegation to the child context
-        if any(txt == "state is None" and pol is False and cfg.dominates(gn, tn) for _, txt, pol, tn in lits) and cfg.dominates(gn, r) \
-                and not any(ev.node(c) in cfg.reachable(cfg.entry, avoid=[r]) and cfg.can_reach(ev.node(c), r) for c in ev.rec_calls + ev.action_calls + ev.resource_calls + ev.init_calls):
-            continue   # cache hit
+        if ev.is_delegation_exit(r) or ev.is_hit_exit(r):
+            continue   # the child context labels its own result / a cached state carries its key
         n += 1
         ra, rb, fe = reaching_defs_attr(cfg, "state", "state.query", r)
         # `state = self.index_state(state)` rebinding keeps the object: treat defs of state by index_state as transparent
